@@ -17,14 +17,15 @@ import (
 // C11 — every advertised encryption method round-trips exactly, on both key APIs.
 
 type C11Case struct {
-	Enc       h.EncSpec `json:"enc"`
-	Plain     []byte    `json:"plain"`
-	KeyMode   string    `json:"keyMode"` // tls | custom | setter | both
-	EAXML     string    `json:"eaXML"`   // serialised EncryptedAssertion element
-	Twin      bool      `json:"twin"`    // also run the encrypted-vs-plaintext twin differential
-	TwinEnc   string    `json:"twinEnc"`
-	TwinRaw   string    `json:"twinRaw"`
-	Placement string    `json:"placement"`
+	Enc       h.EncSpec  `json:"enc"`
+	Plain     []byte     `json:"plain"`
+	KeyMode   string     `json:"keyMode"` // tls | custom | setter | both
+	EAXML     string     `json:"eaXML"`   // serialised EncryptedAssertion element
+	Twin      bool       `json:"twin"`    // also run the encrypted-vs-plaintext twin differential
+	TwinEnc   string     `json:"twinEnc"`
+	TwinRaw   string     `json:"twinRaw"`
+	Placement string     `json:"placement"`
+	Enc2      *h.EncSpec `json:"enc2,omitempty"` // second, independently drawn encryption for the twin\'s second assertion
 }
 
 func keyCfg(mode string) h.KeyCfg {
@@ -67,6 +68,9 @@ func genC11(t *rapid.T) C11Case {
 	c.Enc = *h.GenEncSpec(h.CertRef{Key: "E1", Window: "wide"}).Draw(t, "enc")
 	c.Twin = rapid.IntRange(0, 2).Draw(t, "twin") == 0
 	c.Placement = rapid.SampledFrom([]string{"response", "assertions", "both"}).Draw(t, "placement")
+	if c.Twin && rapid.Bool().Draw(t, "secondEncrypted") {
+		c.Enc2 = h.GenEncSpec(h.CertRef{Key: "E1", Window: "wide"}).Draw(t, "enc2")
+	}
 	if err := c.build(); err != nil {
 		t.Fatalf("harness: %v", err)
 	}
@@ -91,7 +95,7 @@ func (c *C11Case) build() error {
 		c.TwinRaw = raw
 		e := c.Enc
 		g2 := gridGenuine(sp, 2, c.Placement)
-		g2.Enc = []*h.EncSpec{&e, nil}
+		g2.Enc = []*h.EncSpec{&e, c.Enc2}
 		_, enc, _, err := g2.Render()
 		if err != nil {
 			return err
@@ -106,7 +110,7 @@ func checkC11(c C11Case) h.Outcome {
 	fixtureCombo := (c.Enc.DataAlg == types.MethodAES128CBC || c.Enc.DataAlg == types.MethodAES256CBC) && c.Enc.Transport == types.MethodRSAOAEP && c.Enc.Digest == "-" && !c.Enc.Detached && c.KeyMode == "tls"
 	o.NonTrivial = !fixtureCombo
 	o.Classes = []string{"alg:" + shortAlg(c.Enc.DataAlg), "transport:" + shortAlg(c.Enc.Transport), "digest:" + shortAlg(c.Enc.Digest), fmt.Sprintf("detached:%v", c.Enc.Detached),
-		fmt.Sprintf("recipient:%v", c.Enc.Recipient != nil), "key:" + c.KeyMode, fmt.Sprintf("len%%16:%d", len(c.Plain)%16), fmt.Sprintf("twin:%v", c.Twin)}
+		fmt.Sprintf("recipient:%v", c.Enc.Recipient != nil), "key:" + c.KeyMode, fmt.Sprintf("len%%16:%d", len(c.Plain)%16), fmt.Sprintf("twin:%v", c.Twin), fmt.Sprintf("twoEncrypted:%v", c.Enc2 != nil)}
 	if n := len(c.Plain); n > 0 && c.Plain[n-1] == 0 {
 		o.Classes = append(o.Classes, "plain-ends-in-zero")
 	}
@@ -218,6 +222,14 @@ func TestC11_Grid(t *testing.T) {
 								e.Recipient = &r
 							}
 							c := C11Case{Enc: e, Plain: plain, KeyMode: mode, Twin: i%4 == 0, Placement: []string{"response", "assertions", "both"}[i%3]}
+							if c.Twin && i%8 == 0 {
+								// second assertion: the opposite key placement and another digest choice
+								e2 := e
+								e2.Detached = !e.Detached
+								e2.Digest = h.DigestChoices[(i/8)%len(h.DigestChoices)]
+								e2.Transport = h.Transports[(i/8)%2]
+								c.Enc2 = &e2
+							}
 							if err := c.build(); err != nil {
 								t.Fatalf("harness: %v", err)
 							}
